@@ -95,6 +95,15 @@ def run(tier, replay):
                 fails.append({"name": r["name"], "shard": r.get("shard"), "point": "failing effect %d" % fcase["k"], "what": ["operation panicked when the write failed"]})
             if fcase["fails"]:
                 fails.append({"name": r["name"], "shard": r.get("shard"), "point": "failing effect %d" % fcase["k"], "what": fcase["fails"]})
+    # the listed finding: a scan that drops pending transactions writes, for each record, the
+    # cancellation of the log entry and the change of the record in two commits (and one pair per record)
+    known_hit = [f for f in fails if f["name"] == "scan_drop" and
+                 all("not held by a live sent entry" in w for w in f["what"])]
+    if known_hit:
+        V.known_finding("a crash (or failing write) inside scan(delete_unconfirmed) between the commit that cancels a "
+                        "pending send's log entry and the commits that release its inputs leaves Locked outputs under a "
+                        "cancelled entry (%d of the enumerated crash/fault points)" % len(known_hit), "C06-scan-drop-not-atomic")
+    fails = [f for f in fails if f not in known_hit]
     by = {(r["name"], r.get("shard")): r for r in rows}
     for f in fails[:3]:
         row = by.get((f["name"], f["shard"]))
